@@ -50,7 +50,7 @@ is visible through expand.  In addition the "natural" table: unpatched tables, a
 layers redefining real built-in keys of every built-in definedness pattern.
 
 THE EFFECT TABLE (gen_effects, gen_empty_winner; unpatched tables unless a syntax-defaults entry is planted): syntax
-names = every known syntax of the type, 'xhtml', one unknown name (thorough: every name of THE TABLE) x every entry of
+names = every known syntax of the type, 'xhtml', one unknown name (thorough, markup: every name of THE TABLE) x every entry of
 cfgeffect_util.EFFECTS x winning layer in {global type, global syntax, call} x every value of the entry, the other
 layers silent / all less specific caller layers defining another value / a planted syntax-defaults entry defining another
 value (thorough: all three; quick: one drawn from ctx.rng), plus "no caller layer" (the real built-in default or the real
@@ -648,9 +648,10 @@ EFFECT_UNKNOWN_QUICK = 'zzz'
 
 def effect_names(tb, ty, thorough):
     """Syntax names of the effect table: quick = every known syntax of the type, the pseudo syntaxes that are no type
-    name ('xhtml') and one unknown name; thorough = every name of THE TABLE."""
+    name ('xhtml') and one unknown name; thorough = every name of THE TABLE for markup (the stylesheet type keeps the
+    quick list: each of its cases is evaluated inside Coq in the thorough tier)."""
     names = names_for(tb, ty)
-    if thorough:
+    if thorough and ty != 'stylesheet':
         return names
     types = set(tb.base['SYNTAXES'])
     return [(s, c) for s, c in names if c == 'known' or (c == 'pseudo' and s not in types) or s == EFFECT_UNKNOWN_QUICK]
